@@ -37,6 +37,8 @@ def _worker_init(mod_name):
     _MODULE = importlib.import_module(mod_name)
     if hasattr(_MODULE, 'worker_init'):
         _MODULE.worker_init()
+    from . import interloper
+    interloper.calibrate()
 
 
 def _run_chunk(args):
@@ -517,6 +519,8 @@ def main_check(mod, argv):
             return 3
     if hasattr(mod, 'worker_init'):
         mod.worker_init()
+    from . import interloper
+    interloper.calibrate()
     if replay:
         return do_replay(mod, replay)
     t0 = time.time()
